@@ -361,3 +361,14 @@ package types
 //@   ensures chain: result == nil ==> sh.Header.ChainID == chainID
 //@   ensures height: result == nil ==> (sh.Header.Height >= 1 && sh.Commit.Height == sh.Header.Height && sh.Commit.Round >= 0 && len(sh.Commit.Signatures) > 0)
 //@   ensures binds: result == nil ==> sh.Commit.BlockID.Hash == Header.Hash(sh.Header)
+
+// ---- C20: results hash ----
+// ASSUMED: the results hash is a function of the DeliverTx responses hashed.
+//@ func NewResults
+//@   trusted
+//@   purefn
+//@   assigns nothing
+//@ func ABCIResults.Hash
+//@   trusted
+//@   purefn
+//@   assigns nothing
